@@ -68,6 +68,19 @@ CHECKS = {
         'design_ref': 'DESIGN.md 4 (C06)',
         'note': 'reference convention: cell i centred at i*h, periodic; tolerance 6*eps*(n+2)*touching weight per cell',
     },
+    'C08': {
+        'engine': 'E1-threads',
+        'technique': 'deterministic simulation of the per-thread-accumulator binning kernels under seeded schedules, '
+                     'against brute-force enumeration of the full mesh',
+        'text': 'bin_kmu / bin_kppi run on 1..16 simulated threads under three iteration-assignment policies and three '
+                'scheduler strategies; counts must lie in the interval allowed by a brute-force enumeration of all n^3 '
+                'modes (edge ties may fall either side), be bitwise equal for every thread count, and the means / '
+                'multipoles must match on tie-free bins; data-race invariant on the accumulators; compiled kernels '
+                'cross-checked single-threaded. Meshes 1..12, seeded edge families (tie-free and tie-hitting).',
+        'design_ref': 'DESIGN.md 4 (C08)',
+        'note': 'which modes are counted is an input property decided by enumeration; the simulator decides the '
+                'thread-count / schedule independence',
+    },
 }
 
 NOT_APPLICABLE = {
@@ -78,5 +91,5 @@ NOT_APPLICABLE = {
            'no chunking, interleaving or fault for a simulator to vary',
     'C18': 'pure function on a finite domain of 65340 codes: complete enumeration, which is not simulation',
 }
-for _p in ('C01', 'C02', 'C03', 'C05', 'C08', 'C09', 'C10', 'C11', 'C12', 'C13', 'C16', 'C19', 'C20'):
+for _p in ('C01', 'C02', 'C03', 'C05', 'C09', 'C10', 'C11', 'C12', 'C13', 'C16', 'C19', 'C20'):
     NOT_APPLICABLE.setdefault(_p, PENDING)
